@@ -187,7 +187,9 @@ impl<'buf> Session<'buf> {
 
         self.runtime.session_resumed = resumed;
         self.runtime.keepalive_interval = keepalive_interval;
-        self.runtime.send_quota = send_quota;
+        // Publishes that will be replayed on this connection already occupy their slots.
+        let unresolved = self.data.outbound.unresolved_publishes() as u16;
+        self.runtime.send_quota = send_quota.saturating_sub(unresolved);
         self.runtime.max_send_quota = max_send_quota;
         self.runtime.max_qos = max_qos;
         self.runtime.maximum_packet_size = maximum_packet_size;
